@@ -40,6 +40,8 @@ def mk_env(rng):
            "gc": "%d:%d" % (rng.below(1 << 30), ppm) if ppm else None, "rules": stream_rules(rng) if rng.chance(2, 3) else []}
     # where the project lives: the path ends up in every frame label (file#function)
     env["subdir"] = rng.weighted([(None, 5), ("job#42", 2), ("sp ace", 1), ("é#x", 1)])
+    # command-line options that must not change the verdict (`run` only)
+    env["flags"] = rng.weighted([([], 6), (["--profile"], 1), (["--no-pb"], 1), (["-X", "8388608"], 1)])
     # what an earlier build left behind at the artefact paths
     if rng.chance(1, 3):
         env["dirty"] = {"kind": rng.choice(["longer", "shorter", "other_program", "garbage"]), "fill": rng.hexbytes(8)}
@@ -149,7 +151,7 @@ def run_case(case):
         pipeline.place_dirty(world, env, pipeline.module_artefacts(files, pre + "main.ms"))
     procs = []
     if env["mode"] == "run":
-        p = core.run_cmd(world, ["run", pre + "main.ms", "-q"], plan=plan, gc=env["gc"], streams=env["streams"])
+        p = core.run_cmd(world, ["run", pre + "main.ms", "-q"] + list(env.get("flags") or []), plan=plan, gc=env["gc"], streams=env["streams"])
         procs.append(p)
     else:
         c = core.run_cmd(world, ["compile", pre + "main.ms", "--quick"], plan={"seed": env["seed"], "rules": []})
@@ -177,6 +179,12 @@ def run_case(case):
         pr["stale_artefacts_present"] = 1
     st["probes"] = pr
     out = core.text(p["out"])
+    if "--profile" in (env.get("flags") or []) and env["mode"] == "run":
+        # the profile report is appended to stdout after the program ended; it is not program output
+        cut = out.find("\nRuntime Profile:")
+        if cut >= 0:
+            out = out[:cut].rstrip("\n") + "\n" if out[:cut].strip("\n") else ""
+            pr["profile_report_stripped"] = 1
     err = core.text(p["err"]) if env["streams"] == "pipes" else out
 
     def fail(cls, msg):
@@ -204,7 +212,7 @@ def run_case(case):
         # order on the global event sequence: everything written to fd 1 precedes the report on fd 2
         w1 = [e["seq"] for e in p["events"] if e["call"] == "write" and e["path"] == "<stdout>" and e["res"] > 0]
         w2 = [e["seq"] for e in p["events"] if e["call"] == "write" and e["path"] == "<stderr>" and e["res"] > 0]
-        if w1 and w2 and max(w1) > min(w2):
+        if w1 and w2 and max(w1) > min(w2) and "--profile" not in (env.get("flags") or []):
             return fail("order", "program output was written after the error report began (event %d > %d)" % (max(w1), min(w2)))
     else:
         text = out
@@ -246,7 +254,7 @@ def shrink(case):
         c = copy.deepcopy(case)
         c["env"]["streams"] = "pipes"
         yield c
-    for key in ("subdir", "dirty"):
+    for key in ("subdir", "dirty", "flags"):
         if env.get(key):
             c = copy.deepcopy(case)
             c["env"][key] = None
